@@ -1,9 +1,11 @@
 import Driver.OpsCore
 import Driver.OpsEval
 import Driver.OpsRoads
+import Driver.OpsAlloc
+import Driver.OpsFn
 namespace Driver
 
-def handlers : List Handler := [handleCore, handleEval, handleRoads]
+def handlers : List Handler := [handleCore, handleEval, handleRoads, handleAlloc, handleFn]
 
 def step (st : St) (line : String) : St × String :=
   match (line.trimAscii.toString.splitOn " ").filter (· ≠ "") with
